@@ -9,6 +9,7 @@ from ..engine import finite, flow
 from ..engine.mutate import Mutant, Variant, in_function, replace_once
 from ..engine.runner import Rule
 from ..engine.source import AnalysisError
+from . import C11
 from . import shared
 from .common import callee_name, calls_in
 
@@ -194,7 +195,14 @@ def rule_cleanup_wiring(ctx):
     shared.check_cleanup_wired(ctx, "orphaned outputs are found and forgotten in the graph but stay on disk")
 
 
+def rule_outputs_recorded(ctx):
+    """R-C07-9: what a run wrote is recorded as an output whatever the verdict of the run."""
+    shared.check_outputs_recorded_at_completion(ctx, "the file stays PLANNED without a hash, File.before_delete does not queue it, and when the step is dropped from the plan its half-written output stays on disk for ever")
+
+
 RULES = [
+    Rule("R-C07-9", "outputs of every completed run are recorded", rule_outputs_recorded, min_instances=1),
+    Rule("R-C07-10", "the need of an optional step follows its attached consumers (which steps are reverted)", C11.rule_read_set, min_instances=10),
     Rule("R-C07-8", "queued paths are really removed", rule_cleanup_wiring, min_instances=4),
     Rule("R-C07-1", "cleanup sequence on the clean path", rule_sequence, min_instances=3),
     Rule("R-C07-2", "deletion loop shape and order", rule_delete_loop, min_instances=4),
@@ -206,6 +214,7 @@ RULES = [
 ]
 
 MUTANTS = [
+    Mutant("deferred-run-outputs-unrecorded", "executor.py", in_function("Executor.execute_job", replace_once("            self.workflow.update_file_hashes(\n                new_out_hashes,\n                cause=HashUpdateCause.SUCCEEDED if run.success else HashUpdateCause.FAILED,\n            )\n", "            if not wants_defer:\n                self.workflow.update_file_hashes(\n                    new_out_hashes,\n                    cause=HashUpdateCause.SUCCEEDED if run.success else HashUpdateCause.FAILED,\n                )\n")), ("R-C07-9",)),
     Mutant("remover-removes-nothing", "finalize.py", in_function("_try_remove", replace_once("        remove()\n", "        pass\n")), ("R-C07-8",)),
     Mutant("revert-keeps-output-rows", "finalize.py", in_function("revert_optional_steps", replace_once("            db.execute(UPDATE_OPTIONAL_TO_BE_DELETED)\n", "            pass\n")), ("R-C07-8",)),
     Mutant("revert-keeps-dynamic-edges", "finalize.py", in_function("revert_optional_steps", replace_once("        for i, label in rows:\n            Step(workflow, i, label).reset_for_rerun()\n", "")), ("R-C07-7",)),
